@@ -165,13 +165,17 @@ def join(a: Optional[AV], b: Optional[AV]) -> Optional[AV]:
     ea, eb = a.elem, b.elem
     # an element abstraction of None means "no element" only for an empty container (EMPTY qualifier); for any other
     # value it means "elements unknown": the known side must not keep must-facts (qualifiers, precise types)
-    if ea is None and eb is not None and EMPTYQ not in a.quals and a.items is None:
+    if ea is None and eb is not None and EMPTYQ not in a.quals and a.items is None and not _scalar_only(a):
         eb = _unknown_elem(eb)
-    elif eb is None and ea is not None and EMPTYQ not in b.quals and b.items is None:
+    elif eb is None and ea is not None and EMPTYQ not in b.quals and b.items is None and not _scalar_only(b):
         ea = _unknown_elem(ea)
     elem = join(ea, eb)
     if a.items is not None and b.items is not None and len(a.items) == len(b.items):
         items = tuple(join(x, y) for x, y in zip(a.items, b.items))
+    elif a.items is not None and _scalar_only(b):
+        items = a.items          # tuple | None: the tuple keeps its components
+    elif b.items is not None and _scalar_only(a):
+        items = b.items
     else:
         for side in (a, b):
             if side.items is not None:
@@ -183,6 +187,13 @@ def join(a: Optional[AV], b: Optional[AV]) -> Optional[AV]:
     fn = a.fn if a.fn == b.fn else None
     return AV(types=types, alias=a.alias | b.alias, deps=a.deps | b.deps, quals=_join_quals(a, b),
               elem=elem, key=join(a.key, b.key), items=items, const=const, fn=fn)
+
+
+_SCALARS = frozenset({"None", "int", "bool", "float", "str"})
+
+
+def _scalar_only(a: AV) -> bool:
+    return a.types is not None and a.types <= _SCALARS and a.elem is None and a.items is None
 
 
 def _unknown_elem(e: AV) -> AV:
